@@ -208,11 +208,90 @@ class Shared:
         self.upper = None           # ... its loop variable stays below nt + upper (None: not known)
 
 
+class Steps:
+    """what a batch body iterates over, one item per time step: the columns of a formula over time histories (`np.transpose(ABF)`, `ABF.T`: one
+    row of the transpose per step), a `range`, a `zip` of such things, `enumerate(..., start=k)` of one"""
+
+    def __init__(self, kind, parts=(), value=None, lo=None, hi=None, start=0):
+        self.kind, self.parts, self.value, self.lo, self.hi, self.start = kind, list(parts), value, lo, hi, start
+
+    def __repr__(self):
+        return f"Steps({self.kind})"
+
+    def count(self):
+        """number of items as (k, exact) meaning nt + k, or None when not known"""
+        if self.kind == "cols":
+            spans = [series_span(col) for _, _, col in series_atoms(self.value).values()]
+            ks = {-a - b for a, b in spans}
+            return ks.pop() if len(ks) == 1 else None
+        if self.kind == "range":
+            if self.hi is None:
+                return None
+            return self.hi - self.lo
+        if self.kind == "enum":
+            return self.parts[0].count()
+        ks = [p_.count() for p_ in self.parts]
+        return None if any(k is None for k in ks) else min(ks)
+
+
 class BatchEval(GenEval):
     def __init__(self, *a, shared=None, **k):
         k.setdefault("fresh_arrays", "ctor")
         super().__init__(*a, **k)
         self.B = shared
+
+    # ---- iterating over the time steps by value: columns of a history, zip, enumerate, range
+    def _T(self, v):
+        if _is_rat(v) and not is_unknown(v) and series_atoms(v):
+            return Steps("cols", value=v)          # the rows of the transpose of a time history are its columns, one per time step
+        return super()._T(v)
+
+    def _call(self, node):
+        name = self._callee_name(node)
+        if name in ("zip", "enumerate", "range", "iter", "list", "tuple") and not any(isinstance(a, ast.Starred) for a in node.args):
+            kw = {k.arg: k.value for k in node.keywords if k.arg is not None}
+            if name == "range" and 1 <= len(node.args) <= 2 and not kw:
+                vs = [self.ev(a) for a in node.args]
+                if all(_is_rat(x) and not is_unknown(x) for x in vs) and not all(x.is_const() for x in vs):
+                    lov = vs[0] if len(vs) == 2 else F.const(0)
+                    if not lov.is_const() or lov.const_value().denominator != 1:
+                        raise Unsupported("time loop that does not start at a constant step")
+                    return Steps("range", lo=int(lov.const_value()), hi=self._rel_nt(vs[-1]))
+            elif name == "zip" and node.args and not kw:
+                vs = [self.ev(a) for a in node.args]
+                if any(isinstance(x, Steps) for x in vs):
+                    if not all(isinstance(x, Steps) for x in vs):
+                        raise Unsupported(f"`{ast.unparse(node)[:60]}`: zip of a time history with something else")
+                    return Steps("zip", parts=vs)
+            elif name == "enumerate" and node.args and len(node.args) + len(kw) <= 2 and set(kw) <= {"start"}:
+                v = self.ev(node.args[0])
+                if isinstance(v, Steps):
+                    sv = self.ev(kw["start"]) if "start" in kw else (self.ev(node.args[1]) if len(node.args) == 2 else F.const(0))
+                    if not _is_rat(sv) or is_unknown(sv) or not sv.is_const() or sv.const_value().denominator != 1:
+                        raise Unsupported("enumerate with a start that is not a constant")
+                    return Steps("enum", parts=[v], start=int(sv.const_value()))
+            elif name in ("iter", "list", "tuple") and len(node.args) == 1 and not kw:
+                v = self.ev(node.args[0])
+                if isinstance(v, Steps):
+                    return v
+        return super()._call(node)
+
+    def _bind_steps(self, target, it, pos):
+        """bind the loop target to item `pos` (a value: position in the iteration) of the iterable"""
+        if it.kind == "cols":
+            self._assign(target, self.at_column(it.value, pos), target)
+        elif it.kind == "range":
+            self._assign(target, pos + it.lo, target)
+        elif it.kind == "enum":
+            if not isinstance(target, (ast.Tuple, ast.List)) or len(target.elts) != 2:
+                raise Unsupported("enumerate() not unpacked into (counter, item)")
+            self._assign(target.elts[0], pos + it.start, target)
+            self._bind_steps(target.elts[1], it.parts[0], pos)
+        else:
+            if not isinstance(target, (ast.Tuple, ast.List)) or len(target.elts) != len(it.parts) or any(isinstance(e, ast.Starred) for e in target.elts):
+                raise Unsupported("zip() not unpacked into one name per sequence")
+            for e, p_ in zip(target.elts, it.parts):
+                self._bind_steps(e, p_, pos)
 
     def _sub(self, fn, env, strict=True):
         sub = super()._sub(fn, env, strict)
@@ -276,16 +355,22 @@ class BatchEval(GenEval):
         it = self.ev(st.iter)
         if isinstance(it, tuple):
             return super()._for(st)
-        if not (isinstance(st.iter, ast.Call) and dotted(st.iter.func) == "range" and 1 <= len(st.iter.args) <= 2 and not st.iter.keywords
-                and isinstance(st.target, ast.Name) and not st.orelse):
+        if not isinstance(it, Steps) or st.orelse:
             raise Unsupported(f"for loop over `{ast.unparse(st.iter)}`")
-        lo = 0
-        if len(st.iter.args) == 2:
-            lov = self.ev(st.iter.args[0])
-            if not _is_rat(lov) or not lov.is_const() or lov.const_value().denominator != 1:
-                raise Unsupported("time loop that does not start at a constant step")
-            lo = int(lov.const_value())
-        self._time_loop(st, st.target.id, lo, counted=False, upper=self._rel_nt(self.ev(st.iter.args[-1])))
+        # the loop variable of the engine is the step counter the body sees (the range / enumerate variable); without one, the position
+        if it.kind == "range" and isinstance(st.target, ast.Name):
+            return self._time_loop(st, st.target.id, it.lo, counted=False, upper=it.hi)
+        lo = it.start if it.kind == "enum" else 0
+        if it.kind == "zip":
+            rng = [p_ for p_ in it.parts if p_.kind == "range"]
+            if rng:
+                lo = rng[0].lo
+        n = it.count()
+        names = {x.id for x in ast.walk(st.target) if isinstance(x, ast.Name)}
+
+        def bind():
+            self._bind_steps(st.target, it, LOOPVAR - lo)
+        self._time_loop(st, None, lo, counted=False, upper=None if n is None else n + lo, bind=bind, bound=names)
 
     @staticmethod
     def _rel_nt(v, plus=0):
@@ -307,14 +392,14 @@ class BatchEval(GenEval):
         upper = self._rel_nt(self.ev(t.comparators[0]), plus=1 if isinstance(t.ops[0], ast.LtE) else 0)
         self._time_loop(st, var, int(lov.const_value()), counted=True, upper=upper)
 
-    def _time_loop(self, st, var, lo, counted, upper=None):
+    def _time_loop(self, st, var, lo, counted, upper=None, bind=None, bound=()):
         if self.B.active is not None:
             raise Unsupported("nested time loops")
         self.B.upper = upper
         names = []
         for t_ in _store_targets(st.body):
             d = t_.id if isinstance(t_, ast.Name) else self.canon_dotted(t_)
-            if d and d != var and d not in names:
+            if d and d != var and d not in bound and d not in names:
                 names.append(d)
         hyp = {}
         for d in names:
@@ -323,9 +408,12 @@ class BatchEval(GenEval):
                 self.env[d] = hyp[d]
             else:
                 self.env.pop(d, None)            # not bound before the loop: reading it before the body assigns it is an error
-        self.env[var] = LOOPVAR
         n0 = len(self.gcells)
         self.B.active = st
+        if bind is not None:
+            bind()
+        else:
+            self.env[var] = LOOPVAR
         self.run(st.body)
         self.B.active = None
         self.B.loops.append(st)
@@ -396,7 +484,8 @@ class BatchEval(GenEval):
         for d, h in hyp.items():
             carried(d, h, self.env.get(d))
             self.env[d] = Unknown(f"`{d}` after the time loop")
-        self.env[var] = Unknown("the loop variable after the time loop")
+        for nm in ([var] if bind is None else sorted(bound)):
+            self.env[nm] = Unknown("the loop variable after the time loop")
 
     @staticmethod
     def _plain(v):
